@@ -5,4 +5,5 @@ From V Require Import C11.Model.
 Extraction "c11_model.ml" handle spec_handle consistent grammar_ok dev_batch_window
   dev_non_object dev_ill_typed dev_null_id dev_notif_error no_deviation
   resp_wellformed resp_correlated codes calls_once spec_ok obs_eqb norm_resp
-  coerce_go zero_go run_echo optional_tail ascii_of_N N_of_ascii.
+  coerce_go zero_go run_echo optional_tail ascii_of_N N_of_ascii
+  parse_first parse is_batch input_of_bytes print json_wf max_depth batch_window json_eqb.
